@@ -1199,7 +1199,13 @@ func foldWindowRule(p *Program, r *Reporter) {
 						}
 					}
 				}
-				r.Check(resets, key, p.Pos(sw.Pos()), "default clause empties the window", "the constant-folding pass must forget its collected pushes at every opcode it does not handle (default clause assigning nil to the window)")
+				if !resets {
+					// not written as a default clause: asked of the flow graph
+					if f, bad, n := foldWindowSSA(p); f != nil && n > 0 && len(bad) == 0 {
+						resets = true
+					}
+				}
+				r.Check(resets, key, p.Pos(sw.Pos()), "the window is emptied at every opcode the pass does not handle", "the constant-folding pass must forget its collected pushes at every opcode it does not handle (default clause assigning nil to the window)")
 				for _, op := range []string{"OpJump", "OpJumpIfFalse", "OpPlaceholder"} {
 					r.Check(!named[op], "folding pass does not see through "+op, p.Pos(sw.Pos()), "not named: resets the window", op+" is named in a case of the folding pass: the window survives a jump/label boundary")
 				}
@@ -1705,6 +1711,37 @@ func describeVal(p *Program, fn *ssa.Function, call *ssa.Call) string {
 // true edge of `v <= c` / `v < c` (or false edge of the negation).
 func guardedByUpperBound(v ssa.Value, at ssa.Instruction) bool {
 	for _, ref := range liveRefs(v) {
+		// the range test kept in a predicate of its own: true only for values
+		// below a constant
+		if cl, ok := ref.(*ssa.Call); ok {
+			if g := cl.Call.StaticCallee(); g != nil && len(g.Blocks) > 0 && fnPkg(g) != nil && IsLibPath(fnPkg(g).Pkg.Path()) && g.Signature.Results().Len() == 1 && isBoolType(g.Signature.Results().At(0).Type()) {
+				k := -1
+				for i, arg := range cl.Call.Args {
+					if arg == v {
+						k = i
+					}
+				}
+				good := k >= 0 && k < len(g.Params)
+				if good {
+					for _, b := range g.Blocks {
+						if ret, ok := terminator(b).(*ssa.Return); ok && !trueImpliesUpperBound(returnOperand(ret, 0), g.Params[k], 0) {
+							good = false
+						}
+					}
+				}
+				if good {
+					for _, r2 := range liveRefs(cl) {
+						if iff, ok := r2.(*ssa.If); ok {
+							succ := iff.Block().Succs[0]
+							if len(succ.Preds) == 1 && (succ == at.Block() || succ.Dominates(at.Block())) {
+								return true
+							}
+						}
+					}
+				}
+			}
+			continue
+		}
 		bo, ok := ref.(*ssa.BinOp)
 		if !ok {
 			continue
@@ -2185,4 +2222,90 @@ func firstActions(p *Program, a *anchors, g *ssa.Function) (map[string]bool, str
 		}
 	}
 	return out, must
+}
+
+// trueImpliesUpperBound: whenever the boolean is true, prm has passed a
+// comparison that bounds it above by a constant (the value is that
+// comparison, false, or a merge of such — the shape of `a && prm <= K`).
+func trueImpliesUpperBound(v ssa.Value, prm ssa.Value, depth int) bool {
+	if depth > 6 {
+		return false
+	}
+	switch x := v.(type) {
+	case *ssa.Const:
+		return x.Value != nil && x.Value.Kind() == constant.Bool && !constant.BoolVal(x.Value)
+	case *ssa.BinOp:
+		_, cy := x.Y.(*ssa.Const)
+		_, cx := x.X.(*ssa.Const)
+		if x.X == prm && cy && (x.Op == token.LEQ || x.Op == token.LSS) {
+			return true
+		}
+		if x.Y == prm && cx && (x.Op == token.GEQ || x.Op == token.GTR) {
+			return true
+		}
+	case *ssa.Phi:
+		for i, e := range x.Edges {
+			if trueImpliesUpperBound(e, prm, depth+1) {
+				continue
+			}
+			// an edge that is only taken when such a comparison has succeeded
+			pd := x.Block().Preds[i]
+			okEdge := false
+			for d := pd; d != nil && d.Idom() != nil; d = d.Idom() {
+				if iff, ok := terminator(d.Idom()).(*ssa.If); ok && d.Idom().Succs[0] == d && len(d.Preds) == 1 {
+					if trueImpliesUpperBound(iff.Cond, prm, depth+1) {
+						if _, isC := iff.Cond.(*ssa.Const); !isC {
+							okEdge = true
+						}
+					}
+				}
+			}
+			if !okEdge {
+				return false
+			}
+		}
+		return len(x.Edges) > 0
+	}
+	return false
+}
+
+// trueImpliesLowerBound: whenever the boolean is true, prm has passed a
+// comparison that bounds it below by a constant.
+func trueImpliesLowerBound(v ssa.Value, prm ssa.Value, depth int) bool {
+	if depth > 6 {
+		return false
+	}
+	switch x := v.(type) {
+	case *ssa.Const:
+		return x.Value != nil && x.Value.Kind() == constant.Bool && !constant.BoolVal(x.Value)
+	case *ssa.BinOp:
+		_, cy := x.Y.(*ssa.Const)
+		_, cx := x.X.(*ssa.Const)
+		if x.X == prm && cy && (x.Op == token.GEQ || x.Op == token.GTR) {
+			return true
+		}
+		if x.Y == prm && cx && (x.Op == token.LEQ || x.Op == token.LSS) {
+			return true
+		}
+	case *ssa.Phi:
+		for i, e := range x.Edges {
+			if trueImpliesLowerBound(e, prm, depth+1) {
+				continue
+			}
+			pd := x.Block().Preds[i]
+			okEdge := false
+			for d := pd; d != nil && d.Idom() != nil; d = d.Idom() {
+				if iff, ok := terminator(d.Idom()).(*ssa.If); ok && d.Idom().Succs[0] == d && len(d.Preds) == 1 {
+					if _, isC := iff.Cond.(*ssa.Const); !isC && trueImpliesLowerBound(iff.Cond, prm, depth+1) {
+						okEdge = true
+					}
+				}
+			}
+			if !okEdge {
+				return false
+			}
+		}
+		return len(x.Edges) > 0
+	}
+	return false
 }
